@@ -258,3 +258,7 @@ MUTANTS += [
     dict(prop="C08", name="overall score: mean replaced by the first clip's score", file=SED, old="        score=_mean([c.score for c in evaluated_clips]),", new="        score=_mean([c.score for c in evaluated_clips[:1]]),"),
     dict(prop="C08", name="glue: every second evaluated clip dropped", file=SED, old="        evaluated_clips.append(evaluated_clip)\n\n    return evaluated_clips, true_classes, np.array(predicted_classes_scores)\n\n\ndef compute_overall_metrics", new="        if len(evaluated_clips) < 1:\n            evaluated_clips.append(evaluated_clip)\n\n    return evaluated_clips, true_classes, np.array(predicted_classes_scores)\n\n\ndef compute_overall_metrics"),
 ]
+MUTANTS += [
+    dict(prop="C02", name="tag ids: new id is len(mapping) + 1... of the AOEF store", file="io/aoef/tag.py", old="        return len(self._mapping)", new="        return len(self._aoef_store)"),
+    dict(prop="C02", name="tag ids: constant new id", file="io/aoef/tag.py", old="        return len(self._mapping)", new="        return 0"),
+]
